@@ -13,10 +13,10 @@ PROPERTY = "C12"
 ASSUMPTIONS = [
     "base problems: lattice stream multisets (K=3) x <=2 zones x {no utilities, a ladder with distinct levels}; plus a zero-crossing lattice (contains 0.0 and a negative temperature) with a gliding inside-range cold utility whose target is exactly 0.0 and with one header entered as separate hot and cold utilities of the same level",
     "for every base problem ALL generators are applied: every permutation of the stream list, the split of every stream at every interior lattice point, a 1/4+3/4 parallel split of every stream, "
-    "every renaming/reordering of the zones from a 3-name alphabet, translations {+37.5,-100,+1000}, duty scalings {x0.25,x3,x100}, mirroring of the temperature axis with hot/cold swap",
+    "every renaming/reordering of the zones from a 3-name alphabet, translations {+37.5,-100,+1000,+0.1,+273.15}, duty scalings {x0.25,x3,x100}, mirroring of the temperature axis with hot/cold swap",
     "graph data are compared for permutation, split, renaming, translation and scaling (points mapped by the same transformation, 0.011 display tolerance)",
 ]
-TRANSL = [37.5, -100.0, 1000.0]
+TRANSL = [37.5, -100.0, 1000.0, 0.1, 273.15]
 SCALE = [0.25, 3.0, 100.0]
 
 
